@@ -96,6 +96,17 @@ def random_saved(rng):
             extras.append(P.pc(rng.randint(0, 40), rng.randint(0, 100)))
         if rng.random() < .4:
             extras.append(P.cc(rng.randint(0, 40), 64, rng.randint(0, 127)))
+        if rng.random() < .2 and ok:
+            # a two-channel sequence (what merging two single-channel sequences gives); a pitch released on one channel may be
+            # struck on the other at the same tick - still no two notes of one pitch sound together
+            two = rng.sample([0, 1, 5], 2)
+            last = {}
+            for x in sorted(ok, key=lambda n: n["s"]):
+                x["ch"] = two[1 - two.index(last[x["p"]])] if x["p"] in last and rng.random() < .7 else rng.choice(two)
+                last[x["p"]] = x["ch"]
+            s0 = max(x["e"] for x in ok)
+            p0 = max(ok, key=lambda n: n["e"])
+            ok.append({"ch": two[1 - two.index(p0["ch"])], "p": p0["p"], "s": s0, "e": s0 + rng.choice([1, 24]), "v": rng.randint(1, 127)})
         out.append({"notes": ok, "extras": extras, "dur": rng.choice([0, 0, 80])})
     return out
 
